@@ -151,6 +151,8 @@ theorem wf_step (fns : List FnDecl) (s : St) (op : Op) (h : TableWf s) : TableWf
           · exact hother k t0 e hm0
   | threadEnd th => exact h
   | outside n => exact h
+  | await t => simp only [step]; split <;> exact h
+  | aioCall c => exact h
 
 theorem wf_final (fns : List FnDecl) (ops : List Op) : ∀ s, TableWf s → TableWf (finalState fns s ops) := by
   induction ops with
@@ -233,6 +235,8 @@ theorem step_keeps_other (fns : List FnDecl) (s : St) (op : Op) (k : Key) (hne :
         · rfl
   | threadEnd th => rfl
   | outside n => rfl
+  | await t => simp only [step]; split <;> rfl
+  | aioCall c => rfl
 
 theorem avoids_keeps (fns : List FnDecl) (k : Key) (ops : List Op) :
     ∀ s, avoids fns k s ops = true → mget (finalState fns s ops).table k = mget s.table k := by
@@ -314,6 +318,8 @@ theorem calm_step (fns : List FnDecl) (s : St) (k : Key) (t0 : Nat) (op : Op)
   | suspend t => rw [step_keeps_other fns s _ k (by simp [opKey])]; exact hm
   | threadEnd th => exact hm
   | outside n => exact hm
+  | await t => rw [step_keeps_other fns s _ k (by simp [opKey])]; exact hm
+  | aioCall c => exact hm
 
 theorem calm_keeps (fns : List FnDecl) (k : Key) (t0 : Nat) (ops : List Op) :
     ∀ s, mget s.table k = some t0 → calm fns k t0 ops = true → mget (finalState fns s ops).table k = some t0 := by
@@ -382,66 +388,207 @@ theorem create_size (s : St) (d : FnDecl) (args : List Nat) (kw : List (Nat × N
     | false => simp
     | true => simp [mset, merase_absent _ _ (h rfl)]
 
-/-- what the model does to the size of the table is what `sizeOk` allows -/
-theorem step_size (fns : List FnDecl) (s : St) (op : Op) : sizeOk s.table.length (observe fns s op).2 = true := by
+/-! ### the keys of the table are pairwise distinct (`mset` erases first), so erasing a key removes at most one entry -/
+
+def keysNodup {κ : Type} (m : List (κ × Nat)) : Prop := (m.map (·.1)).Nodup
+
+theorem mget_none_of_not_mem {κ : Type} [DecidableEq κ] (m : List (κ × Nat)) (x : κ) (h : x ∉ m.map (·.1)) :
+    mget m x = none := by
+  induction m with
+  | nil => rfl
+  | cons p m ih =>
+    obtain ⟨k, v⟩ := p
+    simp only [List.map_cons, List.mem_cons, not_or] at h
+    simp only [mget]
+    split
+    · rename_i e; exact absurd e.symm h.1
+    · exact ih h.2
+
+theorem merase_nodup {κ : Type} [DecidableEq κ] (m : List (κ × Nat)) (x : κ) (h : keysNodup m) : keysNodup (merase m x) := by
+  unfold keysNodup merase
+  exact List.Nodup.sublist (List.Sublist.map _ (List.filter_sublist)) h
+
+theorem not_mem_merase {κ : Type} [DecidableEq κ] (m : List (κ × Nat)) (x : κ) : x ∉ (merase m x).map (·.1) := by
+  intro h
+  simp only [merase, List.mem_map, List.mem_filter] at h
+  obtain ⟨p, ⟨_, hp⟩, e⟩ := h
+  simp [e] at hp
+
+theorem mset_nodup {κ : Type} [DecidableEq κ] (m : List (κ × Nat)) (x : κ) (t : Nat) (h : keysNodup m) :
+    keysNodup (mset m x t) := by
+  unfold keysNodup mset
+  simp only [List.map_cons, List.nodup_cons]
+  exact ⟨not_mem_merase m x, merase_nodup m x h⟩
+
+theorem merase_length_ge {κ : Type} [DecidableEq κ] (m : List (κ × Nat)) (x : κ) (h : keysNodup m) :
+    m.length ≤ (merase m x).length + 1 := by
+  induction m with
+  | nil => simp
+  | cons p m ih =>
+    obtain ⟨k, v⟩ := p
+    unfold keysNodup at h
+    simp only [List.map_cons, List.nodup_cons] at h
+    by_cases e : k = x
+    · subst e
+      have : merase ((k, v) :: m) k = merase m k := by simp [merase]
+      rw [this, merase_absent m k (mget_none_of_not_mem m k h.1)]
+      simp
+    · have : merase ((k, v) :: m) x = (k, v) :: merase m x := by simp [merase, e]
+      rw [this]
+      have := ih h.2
+      simp only [List.length_cons]
+      omega
+
+theorem merase_length_present {κ : Type} [DecidableEq κ] (m : List (κ × Nat)) (x : κ) (t : Nat) (h : keysNodup m)
+    (hm : mget m x = some t) : (merase m x).length + 1 = m.length := by
+  induction m with
+  | nil => simp [mget] at hm
+  | cons p m ih =>
+    obtain ⟨k, v⟩ := p
+    unfold keysNodup at h
+    simp only [List.map_cons, List.nodup_cons] at h
+    by_cases e : k = x
+    · subst e
+      have : merase ((k, v) :: m) k = merase m k := by simp [merase]
+      rw [this, merase_absent m k (mget_none_of_not_mem m k h.1)]
+      simp
+    · have : merase ((k, v) :: m) x = (k, v) :: merase m x := by simp [merase, e]
+      rw [this]
+      simp only [mget, e, ↓reduceIte] at hm
+      have := ih h.2 hm
+      simp only [List.length_cons]
+      omega
+
+def TableNodup (s : St) : Prop := keysNodup s.table
+
+theorem nodup_init : TableNodup St.init := by simp [TableNodup, keysNodup, St.init]
+
+theorem nodup_create (s : St) (h : TableNodup s) (d : FnDecl) (args : List Nat) (kw : List (Nat × Nat)) (key : Key)
+    (reg : Bool) : TableNodup (create s d args kw key reg).1 := by
+  simp only [create]
+  split
+  · exact h
+  · cases reg with
+    | false => exact h
+    | true => exact mset_nodup _ _ _ h
+
+theorem nodup_step (fns : List FnDecl) (s : St) (op : Op) (h : TableNodup s) : TableNodup (step fns s op).1 := by
+  cases op with
+  | call c =>
+    simp only [step]
+    split
+    · exact h
+    · split
+      · exact h
+      · split
+        · exact nodup_create s h _ _ _ _ _
+        · split
+          · exact h
+          · split
+            · exact nodup_create s h _ _ _ _ _
+            · exact h
+  | dirty c =>
+    simp only [step]
+    split
+    · exact h
+    · split
+      · exact h
+      · exact merase_nodup _ _ h
+  | start t =>
+    simp only [step]
+    split
+    · exact h
+    · split <;> exact h
+  | resume t thrown =>
+    simp only [step]
+    split
+    · exact h
+    · split
+      · exact h
+      · split <;> exact h
+  | suspend t =>
+    simp only [step]
+    split
+    · exact h
+    · split <;> exact h
+  | complete t o =>
+    simp only [step]
+    split
+    · exact h
+    · split
+      · exact h
+      · split
+        · exact merase_nodup _ _ h
+        · exact h
+  | threadEnd th => exact h
+  | outside n => exact h
+  | await t => simp only [step]; split <;> exact h
+  | aioCall c => exact h
+
+
+/-- what the model does to the size of the table is what `sizeBound` allows -/
+theorem step_size (fns : List FnDecl) (s : St) (op : Op) (hn : TableNodup s) :
+    sizeBound s.table.length (observe fns s op).2 = true := by
   cases op with
   | call c =>
     simp only [observe, step]
     split
-    · simp [sizeOk]
+    · simp [sizeBound]
     · rename_i d hd
       split
-      · simp [sizeOk]
+      · simp [sizeBound]
       · rename_i tup hk
         split
         · rename_i hm
           rcases create_size s d (effArgs d c) c.kw { tup := tup, th := c.th, fn := c.fn } true (fun _ => hm) with ⟨h1, h2⟩ | ⟨h1, h2⟩
-          · simp only [sizeOk, h1, h2]; simp
-          · simp only [sizeOk, h1, h2, ↓reduceIte]; simp
+          · simp only [sizeBound, h1, h2]; simp
+          · simp only [sizeBound, h1, h2, ↓reduceIte]; simp
         · split
-          · simp [sizeOk]
+          · simp [sizeBound]
           · split
             · rcases create_size s d (effArgs d c) c.kw { tup := tup, th := c.th, fn := c.fn } false (fun h => by contradiction) with ⟨h1, h2⟩ | ⟨h1, h2⟩
-              · simp only [sizeOk, h1, h2]; simp
-              · simp only [sizeOk, h1, h2]; simp
-            · simp [sizeOk]
+              · simp only [sizeBound, h1, h2]; simp
+              · simp only [sizeBound, h1, h2]; simp
+            · simp [sizeBound]
   | dirty c =>
     simp only [observe, step]
     split
-    · simp [sizeOk]
+    · simp [sizeBound]
     · split
-      · simp [sizeOk]
-      · simp only [sizeOk]
-        exact decide_eq_true (merase_length_le s.table _)
+      · simp [sizeBound]
+      · simp only [sizeBound, Bool.and_eq_true, decide_eq_true_eq]
+        exact ⟨merase_length_le s.table _, merase_length_ge s.table _ hn⟩
   | start t =>
     simp only [observe, step]
     split
-    · simp [sizeOk]
-    · split <;> simp [sizeOk, setTask]
+    · simp [sizeBound]
+    · split <;> simp [sizeBound, setTask]
   | resume t b =>
     simp only [observe, step]
     split
-    · simp [sizeOk]
+    · simp [sizeBound]
     · split
-      · simp [sizeOk]
-      · split <;> simp [sizeOk, setTask]
+      · simp [sizeBound]
+      · split <;> simp [sizeBound, setTask]
   | suspend t =>
     simp only [observe, step]
     split
-    · simp [sizeOk]
-    · split <;> simp [sizeOk, setTask]
+    · simp [sizeBound]
+    · split <;> simp [sizeBound, setTask]
   | complete t o =>
     simp only [observe, step]
     split
-    · simp [sizeOk]
+    · simp [sizeBound]
     · split
-      · simp [sizeOk]
+      · simp [sizeBound]
       · split
-        · simp only [sizeOk, setTask]
-          exact decide_eq_true (merase_length_le s.table _)
-        · simp [sizeOk, setTask]
-  | threadEnd th => simp [observe, step, sizeOk]
-  | outside n => simp [observe, step, sizeOk]
+        · simp only [sizeBound, setTask, Bool.and_eq_true]
+          exact ⟨decide_eq_true (merase_length_le s.table _), decide_eq_true (merase_length_ge s.table _ hn)⟩
+        · simp [sizeBound, setTask]
+  | threadEnd th => simp [observe, step, sizeBound]
+  | outside n => simp [observe, step, sizeBound]
+  | await t => simp only [observe, step]; split <;> simp [sizeBound]
+  | aioCall c => simp [observe, step, sizeBound]
 
 /-! ### a body starts at most once -/
 
@@ -535,6 +682,8 @@ theorem started_step (fns : List FnDecl) (s : St) (op : Op) (t : Nat) (h : start
         · exact this
   | threadEnd th => exact h
   | outside n => exact h
+  | await t => simp only [step]; split <;> exact h
+  | aioCall c => exact h
 
 theorem bodyStarts_cons (t : Nat) (ob : Obs) (obs : List Obs) :
     bodyStarts t (ob :: obs) = (if isStartOf t ob then 1 else 0) + bodyStarts t obs := by
@@ -602,5 +751,129 @@ theorem starts_once (fns : List FnDecl) (t : Nat) (ops : List Op) :
       simp [hc]
     · simp only [hc, Bool.false_eq_true, ↓reduceIte, Nat.zero_add]
       exact ih _
+
+/-! ### the outcome of a task is written once and every reader receives it -/
+
+def outAt (s : St) (t : Nat) (o : Outc) : Prop := ∃ task, s.tasks[t]? = some task ∧ task.out = some o
+
+theorem out_append (s : St) (t : Nat) (o : Outc) (x : Task) (tb : List (Key × Nat)) (h : outAt s t o) :
+    outAt { tasks := s.tasks ++ [x], table := tb } t o := by
+  obtain ⟨task, ht, hs⟩ := h
+  have hlt : t < s.tasks.length := (List.getElem?_eq_some_iff.mp ht).1
+  exact ⟨task, by simp [List.getElem?_append_left hlt, ht], hs⟩
+
+theorem out_set (s : St) (t t' : Nat) (o : Outc) (x : Task) (h : outAt s t o)
+    (hx : ∀ task, s.tasks[t']? = some task → task.out = some o → x.out = some o) :
+    outAt (setTask s t' x) t o := by
+  obtain ⟨task, ht, hs⟩ := h
+  have hlt : t < s.tasks.length := (List.getElem?_eq_some_iff.mp ht).1
+  by_cases e : t' = t
+  · subst e
+    exact ⟨x, by simp [setTask, hlt], hx task ht hs⟩
+  · exact ⟨task, by simp [setTask, List.getElem?_set, e, ht], hs⟩
+
+theorem out_create (s : St) (d : FnDecl) (args : List Nat) (kw : List (Nat × Nat)) (key : Key) (reg : Bool)
+    (t : Nat) (o : Outc) (h : outAt s t o) : outAt (create s d args kw key reg).1 t o := by
+  simp only [create]
+  split
+  · exact h
+  · exact out_append s t o _ _ h
+
+/-- once a task has an outcome, no operation changes it (a completed task is never completed again) -/
+theorem out_step (fns : List FnDecl) (s : St) (op : Op) (t : Nat) (o : Outc) (h : outAt s t o) :
+    outAt (step fns s op).1 t o := by
+  cases op with
+  | call c =>
+    simp only [step]
+    split
+    · exact h
+    · split
+      · exact h
+      · split
+        · exact out_create _ _ _ _ _ _ _ _ h
+        · split
+          · exact h
+          · split
+            · exact out_create _ _ _ _ _ _ _ _ h
+            · exact h
+  | dirty c =>
+    simp only [step]
+    split
+    · exact h
+    · split
+      · exact h
+      · obtain ⟨task, ht, hs⟩ := h
+        exact ⟨task, ht, hs⟩
+  | start t' =>
+    simp only [step]
+    split
+    · exact h
+    · rename_i task ht
+      split
+      · exact h
+      · exact out_set s t t' o _ h (fun x hx hs => by rw [ht] at hx; injection hx with hx; subst hx; exact hs)
+  | resume t' b =>
+    simp only [step]
+    split
+    · exact h
+    · rename_i task ht
+      split
+      · exact h
+      · split
+        · exact h
+        · exact out_set s t t' o _ h (fun x hx hs => by rw [ht] at hx; injection hx with hx; subst hx; exact hs)
+  | suspend t' =>
+    simp only [step]
+    split
+    · exact h
+    · rename_i task ht
+      split
+      · exact h
+      · exact out_set s t t' o _ h (fun x hx hs => by rw [ht] at hx; injection hx with hx; subst hx; exact hs)
+  | complete t' o' =>
+    simp only [step]
+    split
+    · exact h
+    · rename_i task ht
+      split
+      · exact h
+      · rename_i hg
+        have := out_set s t t' o { task with running := false, out := some o' } h
+          (fun x hx hs => by rw [ht] at hx; injection hx with hx; subst hx; simp [hs] at hg)
+        split
+        · obtain ⟨a, ha, hs⟩ := this
+          exact ⟨a, ha, hs⟩
+        · exact this
+  | threadEnd th => exact h
+  | outside n => exact h
+  | await t' => simp only [step]; split <;> exact h
+  | aioCall c => exact h
+
+/-- a reader that receives an outcome: the task holds that outcome, and reading changes nothing -/
+theorem await_reads (fns : List FnDecl) (s : St) (t : Nat) (o : Outc)
+    (h : (step fns s (.await t)).2 = .got (some o)) : outAt s t o ∧ (step fns s (.await t)).1 = s := by
+  simp only [step] at h ⊢
+  cases ht : s.tasks[t]? with
+  | none => simp [ht] at h
+  | some task =>
+    simp only [ht, Res.got.injEq] at h ⊢
+    exact ⟨⟨task, ht, h⟩, trivial⟩
+
+/-- after a task has its outcome, every later reader receives exactly that outcome -/
+theorem awaits_after (fns : List FnDecl) (t : Nat) (o : Outc) (ops : List Op) :
+    ∀ s, outAt s t o → ∀ ob ∈ run fns s ops, ob.op = .await t → ob.res = .got (some o) := by
+  induction ops with
+  | nil => intro _ _ ob hob; simp [run] at hob
+  | cons op ops ih =>
+    intro s h ob hob ha
+    have hrun : run fns s (op :: ops) = (observe fns s op).2 :: run fns (step fns s op).1 ops := rfl
+    rw [hrun, List.mem_cons] at hob
+    rcases hob with e | hob
+    · subst e
+      have e' : op = .await t := ha
+      subst e'
+      obtain ⟨task, ht, hs⟩ := h
+      simp [observe, step, ht, hs]
+    · exact ih _ (out_step fns s op t o h) ob hob ha
 
 end AsynqModel.Dedup
